@@ -821,6 +821,14 @@ func (e *eng) Exec(op []string) string {
 			})
 		})
 		return e.observe(st)
+	case "killwriter": // the connection of a member fails: its writer exits, the client loop has not noticed yet
+		s := e.client(op[1])
+		if s == nil {
+			return "noclient"
+		}
+		s.v.Writes() // what was written before is dropped with the connection
+		s.v.KillWriter()
+		return "ok"
 	case "fault":
 		e.fault = op[1] == "1"
 		return "ok"
